@@ -225,9 +225,14 @@ def saver_kwargs(scn):
     return kw
 
 
+BODY_EXC = {'body-error': BodyError, 'KeyboardInterrupt': KeyboardInterrupt, 'SystemExit': SystemExit,
+            'GeneratorExit': GeneratorExit}
+
+
 def do_save(fu, scn, dest):
     """The client code: one atomic save as a user would write it."""
     chunks = new_content(scn)
+    BodyError = BODY_EXC[scn.get('raise_kind', 'body-error')]   # noqa: F811
     with fu.atomic_save(dest, **saver_kwargs(scn)) as fo:
         for i, ch in enumerate(chunks):
             if scn.get('raise_at') == i:
